@@ -365,17 +365,20 @@ theorem exG_noops : DeletedAreNoops exExecG exW exR := by
   simp only [exW, List.mem_cons, XNode.instr.injEq, List.not_mem_nil, or_false, reduceCtorEq, false_or] at hm
   rcases hm with rfl | rfl | rfl | rfl | rfl
   · refine ⟨fun s => rfl, rfl, fun _ => ?_⟩
-    rcases hrem with ⟨r, hr, _⟩ | ⟨_, l, hl, hlead⟩
+    rcases hrem with (⟨r, hr, _⟩ | ⟨r, k, hr, _⟩) | ⟨_, l, hl, hlead⟩
+    · cases hr
     · cases hr
     · exact ⟨l, hl, hlead⟩
   · exact ⟨fun s => rfl, rfl, fun h => by cases h⟩
   · exact ⟨fun s => rfl, rfl, fun h => by cases h⟩
   · exfalso
-    rcases hrem with ⟨r, hr, _⟩ | ⟨hj, _⟩
+    rcases hrem with (⟨r, hr, _⟩ | ⟨r, k, hr, _⟩) | ⟨hj, _⟩
+    · cases hr
     · cases hr
     · revert hj; decide +kernel
   · exfalso
-    rcases hrem with ⟨r, hr, _⟩ | ⟨hj, _⟩
+    rcases hrem with (⟨r, hr, _⟩ | ⟨r, k, hr, _⟩) | ⟨hj, _⟩
+    · cases hr
     · cases hr
     · revert hj; decide +kernel
 
